@@ -15,6 +15,7 @@ from tlz import unique
 
 from dask_expr._expr import Expr, Filter, Projection, plain_column_projection
 from dask_expr._reductions import TotalMemoryUsageFrame
+from dask_expr import _verif
 from dask_expr._util import LRU
 
 
@@ -475,9 +476,13 @@ mem_usages_lru = LRU(10)
 
 def _get_mem_usages(frame):
     if frame._name in mem_usages_lru:
+        if _verif.ENABLED:
+            _verif.emit("cache", name="mem_usages_lru", key=frame._name, hit=True)
         return mem_usages_lru[frame._name]
     result = _compute_mem_usages(frame)
     mem_usages_lru[frame._name] = result
+    if _verif.ENABLED:
+        _verif.emit("cache", name="mem_usages_lru", key=frame._name, hit=False)
     return result
 
 
